@@ -76,7 +76,7 @@ def run(db, chk):
             if ap is None:
                 raise AnalysisBroken("%s apply() not instantiated in %s" % (op, uname))
             nbad = 0
-            for sc in scs:
+            for sc in (scs if chk.want("C01-E1") else ()):
                 for w in run_router(ap, sc, opobj):
                     n_sc += 1
                     rec0 = w.tables["m_receivers"].get((CENTRE, 0))
@@ -157,7 +157,7 @@ def run(db, chk):
         # ---------------------------------------------------------------- E5
         n_sc += reroute_rule(db, chk, uname, impls)
         n_sc += pits_trigger_rule(db, chk, uname, impls)
-        if uname == UNITS[0] or chk.tier == "thorough":
+        if (uname == UNITS[0] or chk.tier == "thorough") and chk.want("C01-E8"):
             n_sc += mstpipe.run_rule(db, chk, uname, "C01-E8", None)
         # ---------------------------------------------------------------- E4
         C06.order_rule(db, Effects(db), chk, uname, "C01-E4", only_op=MST)
